@@ -103,6 +103,11 @@ Theorem enum_fold_sound : forall known e, eval go_pow known e = eval js_pow know
 Proof. exact eval_agree. Qed.
 Print Assumptions enum_fold_sound.
 
+(* domain of this statement: the model gives a numeric value for x ** y only when the exact
+   result is an integer with |x ** y| <= 2^53 (there math.Pow is exact: checked by the harness on a
+   grid on every run) or when an operand is NaN / +-Infinity; every other finite result is VOut on
+   both sides (no claim) -- large finite results of math.Pow are some ulps away from V8's
+   (known finding C06-M, C03-G family) *)
 Theorem enum_pow_is_ecmascript : forall a b, go_pow a b = js_pow a b.
 Proof. exact pow_agree. Qed.
 Print Assumptions enum_pow_is_ecmascript.
